@@ -1,5 +1,6 @@
 /- Completeness of search delivery over whole histories. -/
 import Ldap3V.Lemmas.ConnCompleteEv
+import Ldap3V.Lemmas.ConnUnbind
 namespace Ldap3V.Conn
 
 /-- everything the completeness argument carries along a run -/
@@ -75,48 +76,58 @@ theorem drvOp_taken {s s' : St} {ob : Obs} {b : Bool} (hs : step s (.drvOp b) = 
         refine FwdX.fwd (X := fun _ => True) ?_
         exact fwdX_endDriver' _ _ _ _ rfl (fun _ _ => trivial)
       · split at hs
-        · simp only [Option.some.injEq, Prod.mk.injEq] at hs
-          rw [← hs.1]
-          exact ⟨rfl, rfl, rfl, fin _ _ (by rfl) (fwdX_dropSenderOpt (fun _ => True) _ _).fwd⟩
-        · simp only [Option.some.injEq, Prod.mk.injEq] at hs
-          rw [← hs.1]
-          exact ⟨rfl, rfl, rfl, fin _ _ (by rfl) (fwdX_ack (fun _ => True) _ _).fwd⟩
-        · simp only [Option.some.injEq, Prod.mk.injEq] at hs
-          rw [← hs.1]
-          exact ⟨rfl, rfl, rfl, fin _ _ (by rfl)
-            ((fwdX_dropSenderOpt (fun _ => True) _ _).trans (fwdX_ack (fun _ => True) _ _)).fwd⟩
-        · simp only [Option.some.injEq, Prod.mk.injEq] at hs
-          rw [← hs.1]
-          exact ⟨rfl, rfl, rfl, fin _ _ (by rfl) (fwdX_ack (fun _ => True) _ _).fwd⟩
+        · cases hs
+        · split at hs
+          · simp only [Option.some.injEq, Prod.mk.injEq] at hs
+            rw [← hs.1]
+            exact ⟨rfl, rfl, rfl, fin _ _ (by rfl) (fwdX_dropSenderOpt (fun _ => True) _ _).fwd⟩
+          · simp only [Option.some.injEq, Prod.mk.injEq] at hs
+            rw [← hs.1]
+            exact ⟨rfl, rfl, rfl, fin _ _ (by rfl) (fwdX_ack (fun _ => True) _ _).fwd⟩
+          · simp only [Option.some.injEq, Prod.mk.injEq] at hs
+            rw [← hs.1]
+            exact ⟨rfl, rfl, rfl, fin _ _ (by rfl)
+              ((fwdX_dropSenderOpt (fun _ => True) _ _).trans (fwdX_ack (fun _ => True) _ _)).fwd⟩
+          · simp only [Option.some.injEq, Prod.mk.injEq] at hs
+            rw [← hs.1]
+            exact ⟨rfl, rfl, rfl, fin _ _ (by rfl) (fwdX_ack (fun _ => True) _ _).fwd⟩
 
+/-- a write that succeeds (`b = true`) needs an open sink: after Unbind `drvOp true` is not enabled -/
 theorem drvOp_enabled {s : St} (b : Bool) {i : Nat} {rest : List Nat} {o : Op} (hd : s.drv = .running)
-    (hqe : s.opQ = i :: rest) (ho : s.ops[i]? = some o) : ∃ s' ob, step s (.drvOp b) = some (s', ob) := by
+    (hqe : s.opQ = i :: rest) (ho : s.ops[i]? = some o) (hsk : b = true → s.sinkClosed = false) :
+    ∃ s' ob, step s (.drvOp b) = some (s', ob) := by
   simp only [step, hd, hqe, ho]
   simp only [ne_eq, not_true_eq_false, if_false]
   split
   · exact ⟨_, _, rfl⟩
   · split
     · exact ⟨_, _, rfl⟩
-    · split <;> exact ⟨_, _, rfl⟩
+    · next hb =>
+      have hb' : b = true := by simpa using hb
+      rw [hsk hb']
+      simp only [Bool.false_eq_true, if_false]
+      split <;> exact ⟨_, _, rfl⟩
 
 theorem run_app (s : St) (a b : List Ev) : Conn.run s (a ++ b) = Conn.run (Conn.run s a) b := by
   simp [Conn.run, List.foldl_append]
 
 /-- The driver takes the request of search `o` (operation number `i`, channel `c`) off the queue when
-its read position is `p0`: from then on, whatever happens, channel `c` is complete from `p0`. -/
+its read position is `p0`: from then on, whatever happens, channel `c` is complete from `p0`.
+(`hsk`: a successful write needs an open sink; the case of a closed sink is `shut_from`.) -/
 theorem complete_from (N : Nat) (pre post : List Ev) (b : Bool) {i c : Nat} {o : Op}
     (hd : (Conn.run (Conn.init N) pre).drv = .running) (hq : (Conn.run (Conn.init N) pre).opQ.head? = some i)
-    (ho : (Conn.run (Conn.init N) pre).ops[i]? = some o) (hc : o.chan = some c) :
+    (ho : (Conn.run (Conn.init N) pre).ops[i]? = some o) (hc : o.chan = some c)
+    (hsk : b = true → (Conn.run (Conn.init N) pre).sinkClosed = false) :
     CAt c (Conn.run (Conn.init N) pre).pos (Conn.run (Conn.init N) (pre ++ Ev.drvOp b :: post)) ∧
     TakenC c i o.id (Conn.run (Conn.init N) (pre ++ Ev.drvOp b :: post)) := by
   have hg0 := Good.run N pre
   rw [run_app]
-  generalize Conn.run (Conn.init N) pre = s0 at hd hq ho hg0 ⊢
+  generalize Conn.run (Conn.init N) pre = s0 at hd hq ho hg0 hsk ⊢
   obtain ⟨rest, hqe⟩ : ∃ rest, s0.opQ = i :: rest := by
     cases hl : s0.opQ with
     | nil => rw [hl] at hq; cases hq
     | cons a rest => rw [hl] at hq; simp only [List.head?_cons, Option.some.injEq] at hq; exact ⟨rest, by rw [hq]⟩
-  obtain ⟨s1, ob, hs1⟩ := drvOp_enabled b hd hqe ho
+  obtain ⟨s1, ob, hs1⟩ := drvOp_enabled b hd hqe ho hsk
   obtain ⟨hch, hlog, hpos, o', ho', hph'⟩ := drvOp_taken hs1 hqe ho
   obtain ⟨ch, hchan, hidx⟩ := hg0.route.chanOf i o c ho hc
   have hiq : o.phase = .queued := by
@@ -148,6 +159,35 @@ theorem complete_from (N : Nat) (pre post : List Ev) (b : Bool) {i c : Nat} {o :
     simp only [Conn.run, List.foldl_cons, hs1]
   rw [hrun]
   exact CAt.run post s1 (hg0.step _ hs1) hfresh ht
+
+/-- The other case: the sink is already closed (an Unbind has been written) when the request of search `o` waits
+at the head of the queue.  `drvOp true` is not enabled then; whatever happens afterwards (the request is skipped, or
+its write fails and the driver ends) channel `c` is never registered and never receives anything. -/
+theorem shut_from (N : Nat) (pre evs : List Ev) {i c : Nat} {o : Op}
+    (hq : (Conn.run (Conn.init N) pre).opQ.head? = some i)
+    (ho : (Conn.run (Conn.init N) pre).ops[i]? = some o) (hc : o.chan = some c)
+    (hsk : (Conn.run (Conn.init N) pre).sinkClosed = true) :
+    Shut c (Conn.run (Conn.init N) (pre ++ evs)) := by
+  have hg0 := Good.run N pre
+  rw [run_app]
+  generalize Conn.run (Conn.init N) pre = s0 at hq ho hg0 hsk ⊢
+  apply Shut.run
+  obtain ⟨ch, hchan, hidx⟩ := hg0.route.chanOf i o c ho hc
+  have hiq : o.phase = .queued := by
+    have hmem : i ∈ s0.opQ := by
+      cases hl : s0.opQ with
+      | nil => rw [hl] at hq; cases hq
+      | cons a rest =>
+        rw [hl] at hq; simp only [List.head?_cons, Option.some.injEq] at hq
+        rw [hq]; exact List.mem_cons_self
+    obtain ⟨o2, h1, h2⟩ := hg0.qInv.qPhase i hmem
+    rw [ho] at h1; cases h1; exact h2
+  obtain ⟨o3, ho3, hcase⟩ := hg0.p c ch hchan
+  rw [hidx, ho] at ho3; cases ho3
+  rcases hcase with ⟨ht, _⟩ | ⟨_, he, hno⟩
+  · rw [hiq] at ht; cases ht
+  · refine ⟨hsk, hno, fun ch2 h2 => ?_⟩
+    rw [hchan] at h2; cases h2; exact he
 
 /-! ### the statements spelled out over `srvLog` and `pos` -/
 
